@@ -1,0 +1,83 @@
+//! Lock facade.
+//!
+//! Without the `verif` cargo feature this is `std::sync::{Mutex, RwLock}` itself (a re-export).
+//! With the feature the locks are thin wrappers that report every acquisition to an external
+//! deterministic simulator before it happens and never block the OS thread while the simulator
+//! drives them (they return the std guard types, so nothing else changes).
+
+#[cfg(not(feature = "verif"))]
+pub use std::sync::{Mutex, RwLock};
+
+#[cfg(feature = "verif")]
+pub use intercepted::{Mutex, RwLock};
+
+#[cfg(feature = "verif")]
+mod intercepted {
+    use std::sync::{LockResult, MutexGuard, RwLockReadGuard, RwLockWriteGuard, TryLockError};
+
+    #[derive(Debug, Default)]
+    pub struct RwLock<T>(std::sync::RwLock<T>);
+
+    #[derive(Debug, Default)]
+    pub struct Mutex<T>(std::sync::Mutex<T>);
+
+    impl<T> RwLock<T> {
+        pub fn new(v: T) -> Self {
+            Self(std::sync::RwLock::new(v))
+        }
+
+        pub fn read(&self) -> LockResult<RwLockReadGuard<'_, T>> {
+            let addr = self as *const _ as usize;
+            crate::verif::sched_point(0, addr);
+            loop {
+                match self.0.try_read() {
+                    Ok(g) => return Ok(g),
+                    Err(TryLockError::Poisoned(e)) => return Err(e),
+                    Err(TryLockError::WouldBlock) => {
+                        if !crate::verif::lock_blocked(addr) {
+                            return self.0.read();
+                        }
+                    }
+                }
+            }
+        }
+
+        pub fn write(&self) -> LockResult<RwLockWriteGuard<'_, T>> {
+            let addr = self as *const _ as usize;
+            crate::verif::sched_point(1, addr);
+            loop {
+                match self.0.try_write() {
+                    Ok(g) => return Ok(g),
+                    Err(TryLockError::Poisoned(e)) => return Err(e),
+                    Err(TryLockError::WouldBlock) => {
+                        if !crate::verif::lock_blocked(addr) {
+                            return self.0.write();
+                        }
+                    }
+                }
+            }
+        }
+    }
+
+    impl<T> Mutex<T> {
+        pub fn new(v: T) -> Self {
+            Self(std::sync::Mutex::new(v))
+        }
+
+        pub fn lock(&self) -> LockResult<MutexGuard<'_, T>> {
+            let addr = self as *const _ as usize;
+            crate::verif::sched_point(2, addr);
+            loop {
+                match self.0.try_lock() {
+                    Ok(g) => return Ok(g),
+                    Err(TryLockError::Poisoned(e)) => return Err(e),
+                    Err(TryLockError::WouldBlock) => {
+                        if !crate::verif::lock_blocked(addr) {
+                            return self.0.lock();
+                        }
+                    }
+                }
+            }
+        }
+    }
+}
